@@ -22,7 +22,7 @@ NONTERMINALS = {
     "prepare_table_ref_fk_stmt": "<table_name>", "prepare_table_ref_iden": "<table_name>",
     "prepare_column_type": "<type>", "prepare_column_auto_increment": "<type>", "prepare_column_type_check_auto_increment": "<type>",
     "prepare_constant": "<value>", "prepare_function_name": "<function>", "prepare_function_arguments": "<arguments>",
-    "prepare_condition_where": "<expr>", "prepare_check_constraint": "<check>", "prepare_generated_column": "<generated>",
+    "prepare_condition_where": "<expr>",
     "prepare_with_query": "<query>", "prepare_insert_statement": "<query>", "prepare_update_statement": "<query>", "prepare_delete_statement": "<query>",
 }
 
@@ -54,6 +54,56 @@ def lex(text):
     return out
 
 
+def _sep_loop(x):
+    """(flag guard text, separator S, body items) of a loop whose iteration starts with `if !flag { write SEP }`"""
+    if x[0] not in ("loop", "star", "star1"):
+        return None
+    items = [y for y in T.flat(x[1]) if y != ("seq", [])]
+    if not items or items[0][0] != "alt" or len(items[0][1]) != 2:
+        return None
+    (g1, b1), (g2, b2) = items[0][1]
+    e1 = b1[0] == "seq" and not b1[1]
+    e2 = b2[0] == "seq" and not b2[1]
+    sepb, g = (b1, g1) if e2 and not e1 else ((b2, g2) if e1 and not e2 else (None, None))
+    if sepb is None or not all(a[0] == "lit" for a in T.atoms(sepb)) or not stmt.SEP_GUARD_STRICT.search((g.get("text") or "").strip()):
+        return None
+    return (g.get("text") or "").strip(), sepb, ("seq", items[1:])
+
+
+def sepchain(S):
+    """consecutive loops that share one first-flag (`let mut first = true; xs.for_each(|x| {if !first {", "} ..; first = false}); ys.for_each(..)`)
+    render ONE separated list: rewrite them into ("sepchain", [(body, sep), ...]).  The flag discipline itself (set to false
+    after every element, never reset) is what the separator rule R2 decides."""
+    k = S[0]
+    if k == "seq":
+        items = [y for y in T.flat(S) if y != ("seq", [])]
+        out = []
+        i = 0
+        while i < len(items):
+            a = _sep_loop(items[i])
+            if a is not None:
+                group = [a]
+                j = i + 1
+                while j < len(items):
+                    b = _sep_loop(items[j])
+                    if b is None or b[0] != a[0]:
+                        break
+                    group.append(b)
+                    j += 1
+                if len(group) > 1:
+                    out.append(("sepchain", [(sepchain(body), sep) for _, sep, body in group]))
+                    i = j
+                    continue
+            out.append(sepchain(items[i]))
+            i += 1
+        return ("seq", out)
+    if k == "alt":
+        return ("alt", [(g, sepchain(x)) for g, x in S[1]])
+    if k in ("loop", "star", "star1"):
+        return (k, sepchain(S[1])) + tuple(S[2:])
+    return S
+
+
 class Builder:
     def __init__(self, f, dialect, entry_name):
         self.f = f
@@ -65,25 +115,32 @@ class Builder:
         self.fixed = {}          # correlated boolean guards of the current function activation: guard text -> taken
         self.bind = {}           # &str parameters of the current activation bound to a string literal by the caller
         self.assigned = set()
+        self.loop_ends = []
+        self.pending = {}        # closure span -> its write template (a closure defined here and handed to a callee)
+        self.clos = {}           # parameter of the current activation -> (template, defining function) of the closure it was given
+        self.cvar = {}           # local -> the unit enum variant (def path) it is known to hold (constant argument of the caller)
         self.excl = {}           # local -> enum variants it cannot hold here (an enclosing / calling match took them elsewhere)
         import json
         self.domain = {(e["fn"], e["guard"]): e["value"] for e in json.load(open(os.path.join(VERIF, "specs", "domain.json")))["entries"] if e["dialect"] == dialect}
         self.domain_used = set()
 
-    def fn_fragment(self, fname, sink, s, e, top=False, bind=None, excl=None):
+    def fn_fragment(self, fname, sink, s, e, top=False, bind=None, excl=None, cvar=None, clos=None):
         if (fname, sink) in self.stack:
             raise Anchor("recursion through %s is not cut by a nonterminal" % fname)
         if len(self.stack) > 24:
             raise Anchor("expansion too deep at %s" % fname)
         self.stack.append((fname, sink))
         t, S = self.linker.body(fname, sink)
-        S = stmt.sepify(S)
-        saved = (self.fixed, self.bind, self.assigned, self.excl)
+        S = stmt.sepify(sepchain(S), strict=True)
+        saved = (self.fixed, self.bind, self.assigned, self.excl, self.cvar, self.clos, self.pending)
+        self.clos = dict(clos or {})
+        self.pending = {}
         self.fixed, self.bind = {}, dict(bind or {})
         self.excl = dict(excl or {})
+        self.cvar = dict(cvar or {})
         self.assigned = {H.place(n["lhs"]) for n in walk(t.body) if n.get("k") in ("assign", "assign_op") and n.get("lhs") is not None}
         self.build(S, s, e, e, fname)
-        self.fixed, self.bind, self.assigned, self.excl = saved
+        self.fixed, self.bind, self.assigned, self.excl, self.cvar, self.clos, self.pending = saved
         self.stack.pop()
 
     def corr_guard(self, x):
@@ -104,6 +161,28 @@ class Builder:
             return None
         return g1["text"]
 
+    def variant_of(self, node):
+        """the enum variant a constant expression denotes: a unit variant path, `&Variant`, or a local known to hold one"""
+        v = H.peel_ref(node)
+        if not isinstance(v, dict):
+            return None
+        if v.get("k") == "path" and v.get("ctor_kind") == "Variant" and "Const" in (v.get("dk") or ""):
+            return v.get("def")
+        if v.get("k") == "local" and v.get("name") in self.cvar and v["name"] not in self.assigned:
+            return self.cvar[v["name"]]
+        return None
+
+    def const_guard(self, gd):
+        """value of `x == Variant` / `x != Variant` / `matches!(x, Variant)` when x is known to hold a unit variant"""
+        e = gd.get("e")
+        if not isinstance(e, dict) or "taken" not in gd:
+            return None
+        if e.get("k") == "binary" and e.get("op") in ("==", "!="):
+            l, r = self.variant_of(e["l"]), self.variant_of(e["r"])
+            if l is not None and r is not None:
+                return (l == r) if e["op"] == "==" else (l != r)
+        return None
+
     def index_guard(self, gd):
         """value of a guard `i > 0` / `i != 0` / `i == 0` on a loop index bound by an enclosing enumerate loop"""
         m = re.match(r"^\(?(\w+) (>|!=|==) 0\)?$", gd.get("text") or "")
@@ -111,6 +190,172 @@ class Builder:
             return None
         first = self.bind[m.group(1)] == "#first"
         return first if m.group(2) == "==" else not first
+
+    def build_fold_table(self, S, s, e, fn_end, fname):
+        """a `fold(flag, |flag, element| ..)` over an enum whose separator logic is more than `if !first`: the closure is
+        tabulated by abstract interpretation per (flag value, element variant) - what is written and the flag returned -
+        and becomes a two-state automaton"""
+        from .interp import Interp, Opaque, Var, Unsupported, Diverged
+        info = S[2]
+        clo = info.get("closure") or {}
+        params = clo.get("params") or []
+        if len(params) != 2 or any(p["pat"].get("k") != "bind" for p in params):
+            return False
+        flag, elem = params[0]["pat"]["name"], params[1]["pat"]["name"]
+        if (self.f.ty(params[0].get("ty")) or "") != "bool":
+            return False
+        adt = (self.f.ty(params[1].get("ty")) or "").lstrip("&")
+        if adt not in self.f.adts or self.f.adts[adt].get("kind") != "enum":
+            return False
+        sinks = set(T.fn_tir(self.f, fname).sinks)
+        atoms = {}
+        for at in T.atoms(S[1]):
+            if len(at) > 3 and at[3]:
+                atoms.setdefault(at[3], at)
+
+        def hands_sink(e_):
+            args = ([e_["recv"]] if e_.get("k") == "mcall" else []) + list(e_.get("args") or [])
+            for a_ in args:
+                pa = H.peel_ref(a_)
+                while isinstance(pa, dict) and pa.get("k") == "mcall" and pa["name"] in ("as_writer",):
+                    pa = H.peel_ref(pa["recv"])
+                if isinstance(pa, dict) and pa.get("k") == "local" and pa.get("name") in sinks:
+                    return True
+            return False
+
+        def unknown(it, e_, env, depth):
+            if hands_sink(e_) and not (e_.get("k") == "mcall" and e_["name"] == "as_writer"):
+                it.out.append(("@", e_.get("sp")))
+            return Opaque("call")
+        rows = {}
+        for v in self.f.adts[adt]["variants"]:
+            for fv in (True, False):
+                it = Interp(self.f, unknown_call=unknown)
+                it.free_opaque = True
+                it.opaque_call = hands_sink
+                env = {flag: fv, elem: Var(v["def"], [Opaque("x")] * len(v["fields"]))}
+                for sk in sinks:
+                    env[sk] = Opaque("sink")
+                try:
+                    r = it.ev(clo["body"], env)
+                except Diverged:
+                    continue
+                except Unsupported:
+                    return False
+                if not isinstance(r, bool):
+                    return False
+                rows[(fv, v["name"])] = (list(it.out), r)
+        # initial flag
+        init = info.get("init")
+        iv = H.peel_ref(init) if isinstance(init, dict) else None
+        starts = None
+        if isinstance(iv, dict) and iv.get("k") == "lit" and iv["lit"]["t"] == "bool":
+            starts = [bool(iv["lit"]["v"])]
+        elif isinstance(iv, dict) and iv.get("k") == "local":
+            key = self.option_flag(fname, iv["name"])
+            if key is not None and key[0] in self.fixed:
+                some = self.fixed[key[0]]
+                starts = [(not some) if key[1] == "is_none" else some]
+        if starts is None:
+            starts = [True, False]
+        a = self.a
+        Q = {True: a.state(), False: a.state()}
+        for st in starts:
+            a.add_eps(s, Q[st])
+        done = a.state()
+        for (fv, vn), (out, r) in rows.items():
+            cur = Q[fv]
+            for item in out:
+                nxt = a.state()
+                if item[0] == "@":
+                    at = atoms.get(item[1])
+                    if at is None:
+                        a.add(cur, "<raw>", nxt, {"fn": fname, "call": "?", "sp": item[1]})
+                    else:
+                        self.build(at, cur, nxt, fn_end, fname)
+                else:
+                    text = item[1]
+                    if not isinstance(text, str):
+                        a.add(cur, "<raw>", nxt, {"fn": fname, "buf": "?"})
+                    else:
+                        toks = []
+                        for part in re.split(r"(<[A-Za-z_][A-Za-z_0-9:]*>)", text):
+                            if re.fullmatch(r"<[A-Za-z_][A-Za-z_0-9:]*>", part):
+                                toks.append("<raw>")
+                            else:
+                                toks += lex(part)
+                        self.tokens(toks, cur, nxt, {"fn": fname, "lit": text})
+                cur = nxt
+            a.add_eps(cur, Q[r])
+            a.add_eps(cur, done)
+        a.add_eps(done, e)
+        return True
+
+    def option_flag(self, fname, name):
+        """`let name = PLACE.is_none()` / `.is_some()`: ("some:PLACE", method)"""
+        fn = self.f.fns.get(fname)
+        if not fn or name in self.assigned:
+            return None
+        found = None
+        for n in walk(fn["hir"]):
+            if n.get("k") == "stmt_let" and n["pat"].get("k") == "bind" and n["pat"].get("name") == name and n.get("init") is not None:
+                if found is not None:
+                    return None
+                iv = H.peel_ref(n["init"])
+                if iv.get("k") == "mcall" and iv["name"] in ("is_none", "is_some") and not iv["args"]:
+                    pl = H.place(iv["recv"])
+                    if pl:
+                        found = ("some:" + pl.lstrip("*&"), iv["name"])
+        return found
+
+    def fold_depends(self, y, key, fname):
+        if y[0] != "loop" or not isinstance(y[2], dict) or y[2].get("kind") != "fold":
+            return False
+        iv = H.peel_ref(y[2]["init"]) if isinstance(y[2].get("init"), dict) else None
+        if isinstance(iv, dict) and iv.get("k") == "local":
+            k2 = self.option_flag(fname, iv["name"])
+            return k2 is not None and k2[0] == key
+        return False
+
+    def some_guard(self, x):
+        """key "some:PLACE" of a two-way `if let Some(..) = PLACE`"""
+        if x[0] != "alt" or len(x[1]) != 2:
+            return None
+        for g, b in x[1]:
+            ge = g.get("e")
+            if g.get("taken") is True and isinstance(ge, dict) and ge.get("k") == "let":
+                pt = ge.get("pat") or {}
+                if (pt.get("path") or {}).get("def") == "core::option::Option::Some":
+                    pl = H.place(ge.get("init"))
+                    if pl:
+                        return "some:" + pl.lstrip("*&")
+        return None
+
+    def let_escape(self, x):
+        """`if let VARIANT = local { continue / return }` with nothing else: (local, variant path, escaping branch)"""
+        if x[0] != "alt" or len(x[1]) != 2:
+            return None
+        t_ = [(g, b) for g, b in x[1] if g.get("taken") is True]
+        f_ = [(g, b) for g, b in x[1] if g.get("taken") is False]
+        if len(t_) != 1 or len(f_) != 1:
+            return None
+        g, b = t_[0]
+        ge = g.get("e")
+        if not (isinstance(ge, dict) and ge.get("k") == "let"):
+            return None
+        if [y for y in T.flat(f_[0][1]) if y != ("seq", [])]:
+            return None
+        body = [y for y in T.flat(b) if y != ("seq", [])]
+        if len(body) != 1 or body[0][0] != "ctl" or body[0][1] not in ("continue", "ret"):
+            return None
+        pt = ge.get("pat") or {}
+        if pt.get("k") != "variant" or not all(z.get("k") in ("bind", "wild") for z in pt.get("subs") or []):
+            return None
+        scr = (H.place(ge.get("init")) or "").lstrip("*&")
+        pd = (pt.get("path") or {}).get("def")
+        if not scr or not pd or scr in self.assigned:
+            return None
+        return scr, (pd,), b
 
     def build_seq(self, items, s, e, fn_end, fname):
         a = self.a
@@ -125,6 +370,25 @@ class Builder:
                     self.fixed[g] = val
                     self.build_seq(items[i:], cur, e, fn_end, fname)
                     del self.fixed[g]
+                return
+            sg = self.some_guard(x)
+            if sg is not None and sg not in self.fixed and any(self.fold_depends(y, sg, fname) for y in items[i + 1:]):
+                for val in (True, False):
+                    self.fixed[sg] = val
+                    self.build_seq(items[i:], cur, e, fn_end, fname)
+                    del self.fixed[sg]
+                return
+            le = self.let_escape(x)
+            if le is not None:
+                scr, pp, esc = le
+                self.build(esc, cur, a.state(), fn_end, fname)      # the escaping branch (continue / return) leaves this sequence
+                old = self.excl.get(scr)
+                self.excl[scr] = set(old or ()) | {pp}
+                self.build_seq(items[i + 1:], cur, e, fn_end, fname)
+                if old is None:
+                    del self.excl[scr]
+                else:
+                    self.excl[scr] = old
                 return
             nxt = e if i == len(items) - 1 else a.state()
             self.build(x, cur, nxt, fn_end, fname)
@@ -148,6 +412,7 @@ class Builder:
             if not S[1]:
                 a.add_eps(s, e)
             g = self.corr_guard(S)
+            sgk = self.some_guard(S)
             scrut = None
             specific = set()
 
@@ -177,6 +442,8 @@ class Builder:
             for gd, x in S[1]:
                 if g is not None and g in self.fixed and gd["taken"] != self.fixed[g]:
                     continue
+                if sgk is not None and sgk in self.fixed and gd.get("taken") is not None and gd["taken"] != self.fixed[sgk]:
+                    continue
                 pt_, sc_ = gd.get("pat"), scrut
                 ge = gd.get("e")
                 if not isinstance(pt_, dict) and isinstance(ge, dict) and ge.get("k") == "let" and gd.get("taken") is True:
@@ -189,6 +456,12 @@ class Builder:
                     ex = self.excl.get(scrut_here, ())
                     if pp and (pp in ex or pp[:1] in ex):
                         continue
+                    cv = self.cvar.get(scrut_here) if scrut_here not in self.assigned else None
+                    if cv is not None:
+                        if pp and pp[0] != cv:
+                            continue
+                        if pt.get("k") in ("wild", "bind") and (cv,) in specific:
+                            continue
                     if pt.get("k") in ("wild", "bind") and specific:
                         old = self.excl.get(scrut_here)
                         self.excl[scrut_here] = set(old or ()) | specific
@@ -217,12 +490,26 @@ class Builder:
                     self.domain_used.add((fname.rsplit("::", 1)[-1], gd.get("text")))
                     continue
                 iv = self.index_guard(gd)
+                if iv is None:
+                    iv = self.const_guard(gd)
                 if iv is not None and iv != gd.get("taken"):
                     continue
                 self.build(x, s, e, fn_end, fname)
         elif k in ("loop", "star", "star1"):
             # one or more iterations: an empty clause list is a builder state the guards rule (R3) decides, not this one
             info = S[2] if len(S) > 2 and isinstance(S[2], dict) else {}
+            if info.get("kind") == "closure-arg" and info.get("sp"):
+                # written where the callee calls the closure back, not here
+                self.pending[info["sp"]] = (S[1], fname)
+                a.add_eps(s, e)
+                return
+            if info.get("kind") == "fold" and self.build_fold_table(S, s, e, fn_end, fname):
+                return
+            dk = (fname.rsplit("::", 1)[-1], "loop:" + re.sub(r"\s+", " ", info.get("over") or ""))
+            if self.domain.get(dk) is False:
+                self.domain_used.add(dk)
+                a.add_eps(s, e)
+                return
             idx = None
             if (info.get("over") or "").endswith(".enumerate()") and isinstance(info.get("pat"), dict):
                 binds = [n["name"] for n in walk(info["pat"]) if n.get("k") == "bind"]
@@ -232,11 +519,14 @@ class Builder:
                 m0, m1, m2 = a.state(), a.state(), a.state()
                 old = self.bind.get(idx)
                 self.bind[idx] = "#first"
+                self.loop_ends.append(m0)
                 self.build(S[1], s, m0, fn_end, fname)
+                self.loop_ends[-1] = m2
                 self.bind[idx] = "#rest"
                 a.add_eps(m0, e)
                 a.add_eps(m0, m1)
                 self.build(S[1], m1, m2, fn_end, fname)
+                self.loop_ends.pop()
                 a.add_eps(m2, m1)
                 a.add_eps(m2, e)
                 if old is None:
@@ -246,11 +536,32 @@ class Builder:
                 return
             m1, m2 = a.state(), a.state()
             a.add_eps(s, m1)
+            self.loop_ends.append(m2)
             self.build(S[1], m1, m2, fn_end, fname)
+            self.loop_ends.pop()
             a.add_eps(m2, m1)
             a.add_eps(m2, e)
             if k == "star":
                 a.add_eps(s, e)
+        elif k == "sepchain":
+            # several element lists rendered as one separated list: N = nothing written yet, Hs = something written
+            N, Hs = s, None
+            for body, sep in S[1]:
+                first_done = a.state()
+                self.build(body, N, first_done, fn_end, fname)           # first element overall comes from this list
+                if Hs is not None:
+                    m = a.state()
+                    self.build(sep, Hs, m, fn_end, fname)
+                    self.build(body, m, first_done, fn_end, fname)
+                m2 = a.state()
+                self.build(sep, first_done, m2, fn_end, fname)
+                self.build(body, m2, first_done, fn_end, fname)
+                nH = a.state()
+                a.add_eps(first_done, nH)
+                if Hs is not None:
+                    a.add_eps(Hs, nH)
+                Hs = nH
+            a.add_eps(Hs, e)        # at least one element overall (an empty element list is a builder state R3 decides)
         elif k == "sepby":
             # body (sep body)*
             m1, m2, m3 = a.state(), a.state(), a.state()
@@ -301,6 +612,15 @@ class Builder:
             if short in NONTERMINALS and not (short == self.entry_name and not self.stack[1:]):
                 a.add(s, NONTERMINALS[short], e, {"fn": fname, "call": cal, "sp": S[3]})
                 return
+            nd = S[2].get("node") or {}
+            fe = H.peel_ref(nd.get("fn_expr")) if isinstance(nd.get("fn_expr"), dict) else None
+            if nd.get("k") == "call" and isinstance(fe, dict) and fe.get("k") == "local" and fe.get("name") in self.clos:
+                body, owner = self.clos[fe["name"]]
+                saved_c = (self.fixed, self.bind, self.excl, self.cvar)
+                self.fixed, self.bind, self.excl, self.cvar = {}, {}, {}, {}
+                self.build(stmt.sepify(sepchain(body), strict=True), s, e, e, owner)
+                self.fixed, self.bind, self.excl, self.cvar = saved_c
+                return
             target = self.linker.resolve(cal, S[2])
             if target is None:
                 a.add(s, "<call:%s>" % short, e, {"fn": fname, "call": cal, "sp": S[3]})
@@ -311,6 +631,7 @@ class Builder:
                 return
             bind = {}
             excl = {}
+            cvar = {}
             tt = T.fn_tir(self.f, target)
             for i, an in enumerate(S[2].get("arg_nodes") or []):
                 v = H.peel_ref(an) if isinstance(an, dict) else None
@@ -320,10 +641,20 @@ class Builder:
                     bind[tt.params[i][0]] = self.bind[v["name"]]
                 if isinstance(v, dict) and v.get("k") == "local" and v["name"] in self.excl and i < len(tt.params) and tt.params[i][0]:
                     excl[tt.params[i][0]] = self.excl[v["name"]]
-            self.fn_fragment(target, cs, s, e, bind=bind, excl=excl)
+                pv = self.variant_of(an) if isinstance(an, dict) else None
+                if pv is not None and i < len(tt.params) and tt.params[i][0]:
+                    cvar[tt.params[i][0]] = pv
+            clos = {}
+            for j, cn in (S[2].get("closures") or {}).items():
+                j = int(j)
+                if isinstance(cn, dict) and cn.get("sp") in self.pending and j < len(tt.params) and tt.params[j][0]:
+                    clos[tt.params[j][0]] = self.pending[cn["sp"]]
+            self.fn_fragment(target, cs, s, e, bind=bind, excl=excl, cvar=cvar, clos=clos)
         elif k == "ctl":
             if S[1] == "ret":
                 a.add_eps(s, fn_end)
+            elif S[1] == "continue" and self.loop_ends:
+                a.add_eps(s, self.loop_ends[-1])
             else:
                 a.add_eps(s, e)
         elif k == "diverge":
